@@ -96,13 +96,13 @@ def rwBlocks (pi : Bool) : Blocks → List String → Blocks × List String
     (.cons b' r', seen2)
 end
 
-/-- step 1: `reg name` directly after the top-level statement number `idx` (for every matched import) -/
+/-- registration calls for the names matched on statement number `i`, in order -/
+def regsAt (matched : List (Nat × String)) (i : Nat) : List Stmt := (matched.filter (fun p => p.1 = i)).map fun p => .reg p.2
+
+/-- step 1: the registration calls of every matched top-level import directly after that statement -/
 def insertMatched (matched : List (Nat × String)) : Nat → Block → Block
   | _, .nil => .nil
-  | i, .cons s r =>
-    match matched.find? (fun p => p.1 = i) with
-    | some p => .cons s (.cons (.reg p.2) (insertMatched matched (i + 1) r))
-    | none => .cons s (insertMatched matched (i + 1) r)
+  | i, .cons s r => .cons s (prepend (regsAt matched i) (insertMatched matched (i + 1) r))
 
 structure Cfg where
   fullScript : Bool
@@ -111,7 +111,7 @@ structure Cfg where
 
 /-- `profiled_imports` after step 1: the matched names, highest tree index first -/
 def initialSeen (matched : List (Nat × String)) (n : Nat) : List String :=
-  ((List.range n).reverse.filterMap fun i => (matched.find? (fun p => p.1 = i)).map (·.2))
+  ((List.range n).reverse.flatMap fun i => (matched.filter (fun p => p.1 = i)).map (·.2))
 
 def Block.length : Block → Nat
   | .nil => 0
